@@ -438,6 +438,9 @@ def fixed_corpus():
     out.append(Def([L('regex', '[^;]+'), L('token', ';')], utf8=False, origin='fixed:bytes-text-loops'))
     out.append(Def([L('regex', '"[^"]*"'), L('regex', '//[^\\n]*', allow_greedy=True), L('regex', '[a-z]+'), L('skip', '[ \\n]')], utf8=False, origin='fixed:bytes-text-loops2'))
     out.append(Def([L('regex', '.+', allow_greedy=True), L('token', '\n')], utf8=False, origin='fixed:bytes-text-loops3'))
+    # a callback that bumps over the next character and then rejects the match, next to a pattern that reads on into a character
+    # sharing its lead byte with the one in the input (round 29: the span after the rejection must still be on char boundaries)
+    out.append(Def([L('regex', '[a-z]+', cb=29), L('regex', '[a-z]+·[a-z]+'), L('regex', '[0-9]+'), L('skip', ' ')], origin='fixed:bump-then-reject'))
     # a skip with a callback listed before a plain skip (round 29: the plain one must not run the other's callback)
     out.append(Def([L('skip', 'w+', cb=17), L('skip', ' +'), L('regex', '[a-v]+'), L('token', '='), L('skip', '#+', cb=3), L('skip', '_')], origin='fixed:skip-cb-first'))
     # a plain skip that is a proper prefix of a longer pattern, the longer one cut short by the end of the input (round 28)
